@@ -133,3 +133,16 @@ Fixpoint fold_r {S A} (body : S -> A -> trap (result S)) (v : list A) (s : S) : 
 
 (** [v.len()] of a Vec of any element type *)
 Definition len_of {A} (v : list A) : N := N.of_nat (length v).
+
+(** [==] on opaque values (keys, points, commitment contents: identities; their PartialEq is
+    structural, so two values are equal iff they are the same identity) and on [Option]s of them *)
+Definition opt_id_eqb (a b : option N) : bool :=
+  match a, b with
+  | Some x, Some y => x =? y
+  | None, None => true
+  | _, _ => false
+  end.
+
+(** [opt.unwrap()] / [opt.expect(..)]: panics on [None] *)
+Definition expect_some {A} (o : option A) : trap A :=
+  match o with Some a => Val a | None => Trap end.
